@@ -17,3 +17,10 @@
            (= head2 (ite canon b head)))
       (and (forall ((h (Array (_ BitVec 64) (_ BitVec 8)))) (=> (or (select stored h) (= h b)) (<= (select td2 h) (select td2 head2))))
            (>= (select td2 head2) (select td head)))))
+; header hash as an observer of the header object; the all-zero hash (absent number-index entry)
+(declare-fun hdrhash (Int) (Array (_ BitVec 64) (_ BitVec 8)))
+(define-fun zerohash () (Array (_ BitVec 64) (_ BitVec 8)) ((as const (Array (_ BitVec 64) (_ BitVec 8))) #x00))
+; bloom membership tests as observers of the bloom value and the looked-up key (C16)
+(declare-fun bloomhasaddr ((Array (_ BitVec 64) (_ BitVec 8)) (Array (_ BitVec 64) (_ BitVec 8))) Bool)
+(declare-fun bloomhashash ((Array (_ BitVec 64) (_ BitVec 8)) (Array (_ BitVec 64) (_ BitVec 8))) Bool)
+(declare-fun bloomhasbig ((Array (_ BitVec 64) (_ BitVec 8)) Int) Bool)
